@@ -218,9 +218,17 @@ def install_observers(g, obs, target_hi=None, target_lo=None):
 
     for cls in (di.Distribution, di.FlorySchulz, di.SchulzZimm, di.LogNormal, di.Gauss, di.Uniform, di.Poisson):
         if "draw_mw" in cls.__dict__:
-            if not hasattr(cls, "_sx_orig_draw"):
+            if "_sx_orig_draw" not in cls.__dict__:
                 cls._sx_orig_draw = cls.__dict__["draw_mw"]
             cls.draw_mw = draw
+
+
+def restore_draws(g):
+    """undo the draw stub (replays that need the real distributions)"""
+    di = sys.modules["gbigsmiles.distribution"]
+    for cls in (di.Distribution, di.FlorySchulz, di.SchulzZimm, di.LogNormal, di.Gauss, di.Uniform, di.Poisson):
+        if "_sx_orig_draw" in cls.__dict__:
+            cls.draw_mw = cls.__dict__["_sx_orig_draw"]
 
 
 def symbolic_draw(bounds_by_dist, default_hi=None):
